@@ -765,8 +765,12 @@ var UnlockPoints = false
 func AddrID(p unsafe.Pointer) uint64 { return uint64(uintptr(p)) & 0xffffff }
 
 // Stmt is the statement-granularity point inserted by vrewrite -stmt.
+// StmtEnabled switches the statement-granularity points of a build made with vrewrite -stmt
+// off (a check can then search the same binary at both granularities).
+var StmtEnabled = true
+
 func Stmt() {
-	if S != nil && S.armed {
+	if S != nil && S.armed && StmtEnabled {
 		Point(OpStmt, 0, nil)
 	}
 }
